@@ -31,6 +31,13 @@ def _(p):
     return None if v in ("agree", "dontcare") else f"{v}: formula {' '.join(p['symbols'])!r}: {d}"
 
 
+@replay("c01_scaled")
+def _(p):
+    from harness import parser_common as pc
+
+    return pc.scaled_check(p["text"], p["expected"], p["route"])
+
+
 @replay("c15_ws")
 def _(p):
     from harness import ch_c15
